@@ -49,6 +49,11 @@ AMR_ROLES = [':ARG0', ':ARG1', ':ARG2', ':mod', ':domain', ':op1', ':op2', ':op1
 
 def cases(ctx):
     q = ctx.tier == 'quick'
+    if ctx.shard == 0:
+        # designated probe for the open known finding F22 (printed on every run)
+        yield 'probe', {'argv': ['--amr', '--canonicalize-roles', '--reify-edges'],
+                        'options': ['canonicalize_roles', 'reify_edges'],
+                        'input': '(a / 7 :ARG1 (f / 7 :name a) :mod-of f :foo f)\n'}
     n = 450 if q else 9000
     for i in range(n):
         if not ctx.time_left():
@@ -110,6 +115,22 @@ def has_inverted_attribute(node, rm):
 
 
 def oracle(ctx, kind, p):
+    if kind == 'probe':
+        rm = M.get('amr')[2]
+        ok, res = ctx.call(run_main, p['argv'], p['input'], clause='cli:main')
+        if not ok:
+            return
+        out = res[1]
+        ok, res2 = ctx.call(run_main, p['argv'], out, clause='cli:main(second pass)')
+        ctx.count('idempotence_probe')
+        ctx.case(p, True)
+        if ok and res2[1] != out:
+            noncanon = sorted({t[1].partition('~')[0] for t in R.lex(out)
+                               if t[0] == 'ROLE' and t[1].partition('~')[0] in rm.normalizations})
+            ctx.fail('not-idempotent', mech='normalisable-role-in-output probe',
+                     detail={'argv': p['argv'], 'options': p['options'], 'first': out, 'second': res2[1],
+                             'noncanonical_roles_in_first_output': noncanon})
+        return
     if kind != 'rand':
         return
     rng = ctx.rng('rand', p['i'])
